@@ -37,7 +37,6 @@ RULE = ("codecs: exact output on random + adversarial strings; bindings: library
         "non-trivial = case not refused at input level; distinct = distinct case JSON")
 TRUSTED = [
     "zlib (raw DEFLATE) and SHA-1 are parameters of the model; their values on each case come from the harness's own zlib/hashlib calls",
-    "urllib.parse.urlparse raising on a malformed network location is an oracle flag (netloc_ok) computed by the harness",
     "HTML: the receiving browser is replaced by the Lean attribute scanner (Model/HtmlScan.lean, part of the statement), cross-checked against html.parser.HTMLParser on every form",
     "XML parsing/serialisation (xml.etree, defusedxml) is exercised, not modelled: SOAP is modelled at string-splice level and at element-tree level",
 ]
@@ -438,12 +437,12 @@ def gen_cases(rng, tier):
         loc = gen_dest(rng)
         via = "apply_binding" if typ in ("SAMLRequest", "SAMLResponse") and rng.random() < 0.5 else "pack"
         yield {"op": "redirect", "typ": typ, "msg": msg, "loc": loc, "rs": gen_relay(rng), "via": via,
-               "deflated": hx(zlib.compress(u8(msg))[2:-4]), "netloc_ok": netloc_ok(loc)}
+               "deflated": hx(zlib.compress(u8(msg))[2:-4])}
     # ---- artifact URL
     for i in range(n(250, 1500)):
         art = base64.b64encode(b"\x00\x04" + bytes(rng.randrange(256) for _ in range(42))).decode()
         loc = gen_dest(rng)
-        yield {"op": "artifact_url", "art": art, "loc": loc, "rs": gen_relay(rng), "netloc_ok": netloc_ok(loc),
+        yield {"op": "artifact_url", "art": art, "loc": loc, "rs": gen_relay(rng),
                "via": rng.choice(["use_http_artifact", "apply_binding", "apply_binding_response"])}
 
     # ---- SOAP
@@ -744,8 +743,6 @@ def run_impl(case):
                                                response=(typ == "SAMLResponse"), sign=False)
             else:
                 info = pack.http_redirect_message(case["msg"], case["loc"], case["rs"], typ)
-        except ValueError:           # urlparse refuses the destination's network location
-            return {"url": None}
         except Exception as e:       # pack raises a bare Exception for an unknown message type
             if type(e) is Exception and "Unknown message type" in str(e):
                 return {"url": None}
@@ -762,14 +759,11 @@ def run_impl(case):
         rsv = _last(params, "RelayState")
         return {"url": hx(u8(url)), "params": params, "unraveled": unr, "relay": hx(u8(rsv)) if rsv is not None else None}
     if op == "artifact_url":
-        try:
-            if case["via"] == "use_http_artifact":
-                info = HTTPBase.use_http_artifact(case["art"], case["loc"], case["rs"])
-            else:
-                info = _entity().apply_binding(BINDING_HTTP_ARTIFACT, case["art"], case["loc"], case["rs"],
-                                               response=(case["via"] == "apply_binding_response"))
-        except ValueError:
-            return {"url": None}
+        if case["via"] == "use_http_artifact":
+            info = HTTPBase.use_http_artifact(case["art"], case["loc"], case["rs"])
+        else:
+            info = _entity().apply_binding(BINDING_HTTP_ARTIFACT, case["art"], case["loc"], case["rs"],
+                                           response=(case["via"] == "apply_binding_response"))
         return {"url": hx(u8(info["url"])), "params": _params(info["url"])}
 
     if op == "soap":
@@ -873,13 +867,17 @@ def nontrivial(case, impl, lean):
 
 
 def finding_key(case, impl, lean):
-    """Root-cause class of a spec failure.  Only the two recorded URL-glue defects are named."""
+    """Root-cause class of a spec failure (narrow: one key per root cause)."""
     if case["op"] in ("redirect", "artifact_url") and impl.get("url") is not None:
         loc = case["loc"]
-        stripped = "".join(ch for ch in loc if ch not in "\t\r\n")
+        base = loc.partition("#")[0]
+        own = base.partition("?")[2]
+        if "?" in base and own != "" and own.endswith("?"):
+            return "C14/add-query-trailing-question-mark"
+        # the two classes repaired by 1ca38117: named so that a regression surfaces under its old name
         if "#" in loc:
             return "C14/redirect-destination-fragment"
-        if "?" in loc and not _raw_query(stripped):
+        if "?" in base and not "".join(ch for ch in own if ch not in "\t\r\n"):
             return "C14/redirect-destination-empty-query"
     if case["op"] == "soap" and not case.get("as_object") and case.get("tree") is not None:
         from saml2 import pack
@@ -901,8 +899,6 @@ def shrink(case):
                             c["inflate"] = [inflate_row(u8(cand))]
                         if "deflated" in c:
                             c["deflated"] = hx(zlib.compress(u8(cand))[2:-4])
-                    if k == "loc" and "netloc_ok" in c:
-                        c["netloc_ok"] = netloc_ok(cand)
                     if k == "thingy" and c.get("tree") is not None:
                         continue
                     yield c
